@@ -87,6 +87,11 @@ def rule_CY(ctx, tier):
     for a in alts:
         a = og.strip(a)
         if isinstance(a, tuple) and a[0] == "agg" and a[1].endswith("Result") and a[2] == "Err":
+            # a failure must come from the primitives: the AEAD's own error (or, below, the deserialiser's); a rejection decided
+            # by decrypt itself refuses blobs that encrypt can produce (e.g. a minimum size taken from relay policy)
+            if any(isinstance(x, tuple) and x and x[0] == "proj" and isinstance(x[1], tuple) and x[1] and x[1][0] == "call" and x[1][1].endswith("aead::Aead>::decrypt") and "v:Err" in x[2] for x in og.walk(a)):
+                continue
+            rr.fail("decrypt-extra-rejection", "decrypt can fail with `%s`, an error it builds itself rather than the AEAD's or the deserialiser's: some output of encrypt() no longer decrypts under its own id" % og.show(a)[:120], where=d.span)
             continue
         inner = a
         while isinstance(inner, tuple) and inner and inner[0] == "call" and inner[1].split("::")[-1] in ("map_err", "or_else") and inner[2]:
